@@ -1,4 +1,4 @@
-CONSTANTS MutPay = {5}
+CONSTANTS MutPay = {0, 5}
   MutVals = {"zero", "one", "hi", "max", "inc", "dec"}
   MaxMuts = 1
   MutCuts = "none"
